@@ -27,6 +27,9 @@ func goodConn(ids ...uint32) ConnScript { // a healthy connection used after a r
 }
 
 func genC10(tier string, rng *Rng) {
+	if runInChild() {
+		return
+	}
 	findDriver("C10")
 	var scs []*Scenario
 	hist := map[string]int{}
@@ -132,6 +135,69 @@ func genC10(tier string, rng *Rng) {
 		cs.Items = append(cs.Items, good(250))
 		cs.Segs = append(cs.Segs, SegCut{t + 10, gl})
 		add("junk-payload", t+600, false, cs)
+	}
+
+	// ---- junk payloads of sizes around every power of two from 2^8 to 2^16 (n-4 .. n+1) and of
+	// large sizes, the large ones as the FIRST frame of a fresh connection; after each a valid
+	// frame that must be delivered
+	{
+		var sweep []int
+		for e := 8; e <= 16; e++ {
+			for d := -4; d <= 1; d++ {
+				sweep = append(sweep, 1<<uint(e)+d)
+			}
+		}
+		var items []Item
+		sum := 0
+		flushJ := func() {
+			if len(items) == 0 {
+				return
+			}
+			cs := ConnScript{Items: append([]Item{ackItem()}, items...), End: "none", Segs: []SegCut{{0, 6}}}
+			for i, it := range items {
+				cs.Segs = append(cs.Segs, SegCut{300 + 10*i, len(it.Encode())})
+			}
+			add("junk-size-sweep", 300+10*len(items)+700, false, cs)
+			items, sum = nil, 0
+		}
+		for _, n := range sweep {
+			if sum+n > 300000 {
+				flushJ()
+			}
+			var d Bs
+			if n <= 4096 {
+				d = Lit(rng.Bytes(n))
+			} else {
+				d = Bs{{Lit: rng.Bytes(16)}, {N: n - 16, C: byte(0x80 + rng.Intn(100))}}
+			}
+			items = append(items, Item{Kind: "f", Data: d}, good(uint32(1+len(items))))
+			sum += n
+		}
+		flushJ()
+		big := []int{131068, 131072, 131073, 150000, 196608, 196609, 262144, 262145, 300000, 327680, 393217, 458752, 499999}
+		if tier == "quick" {
+			big = []int{131073, 150000, 196608, 262145, 300000, 393217, 458752, 499999}
+		}
+		for _, n := range big {
+			junk := Item{Kind: "f", Data: Bs{{Lit: rng.Bytes(16)}, {N: n - 16, C: byte(0x80 + rng.Intn(100))}}}
+			valid := Item{Kind: "f", Data: payloadOfSize(n/2 + 7)}
+			cs := ConnScript{Items: []Item{ackItem(), junk, good(5), valid, good(6)}, End: "none"}
+			cs.Segs = []SegCut{{0, 6}, {300, len(junk.Encode())}, {340, gl}, {380, len(valid.Encode())}, {420, gl}}
+			add("junk-large-first", 1100, false, cs)
+		}
+	}
+
+	// ---- truncation after k bytes of a frame, then the panel half-closes (FIN, socket held open)
+	// or closes: nothing of the broken frame may be delivered; disconnect, reconnect, service
+	for k := 1; k < len(vb); k++ {
+		for _, end := range []string{"close", "fullclose"} {
+			if tier == "quick" && end == "fullclose" && k%3 != 1 {
+				continue
+			}
+			cs := ConnScript{Items: []Item{ackItem(), good(1), {Kind: "raw", Data: Lit(vb[:k])}}, Segs: []SegCut{{0, 6}, {250, gl}, {300, k}}, End: end, EndT: 600}
+			// EOF at 600 -> disconnect 600, reconnect 1600, cancel 2300
+			add("truncated-then-"+end, 2300, false, cs, goodConn(4))
+		}
 	}
 
 	// ---- an empty payload, then an idle period longer than the in-frame timeout, then frames:
